@@ -45,36 +45,6 @@ def _type_of(module, ann):
     return t
 
 
-def _mask_polarity(e):
-    """(polarity KEEP/NA/?, axis 'elem'/'rows'/'cols'/?) of a mask expression."""
-    if isinstance(e, ast.UnaryOp) and isinstance(e.op, ast.Invert):
-        p, a = _mask_polarity(e.operand)
-        return ({"KEEP": "NA", "NA": "KEEP"}.get(p, "?"), a)
-    if isinstance(e, ast.Attribute) and e.attr == "values":
-        return _mask_polarity(e.value)
-    if isinstance(e, ast.Call) and isinstance(e.func, ast.Attribute):
-        name = e.func.attr
-        if name in ("notna", "notnull", "is_not_null"):
-            return ("KEEP", "elem")
-        if name in ("isna", "isnull", "is_null", "is_nan"):
-            return ("NA", "elem")
-        if name in ("any", "all"):
-            p, a = _mask_polarity(e.func.value)
-            ax = kwarg(e, "axis") or (e.args[0] if e.args else None)
-            axv = const_value(ax) if ax is not None else None
-            # any over NA flags -> row is NA ; all over KEEP flags -> row is KEEP ; mixing changes the meaning
-            if (name == "any" and p != "NA") or (name == "all" and p != "KEEP"):
-                p = "?"
-            return (p, "rows" if axv == 1 else "cols")
-        if name in ("to_numpy", "astype"):
-            return _mask_polarity(e.func.value)
-        if call_is(e, "isnan"):
-            return ("NA", "elem")
-    if isinstance(e, ast.Call) and call_is(e, "isnan"):
-        return ("NA", "elem")
-    return ("?", "?")
-
-
 def run(ctx):
     m = ctx.model
     con = m.module("_construction")
@@ -130,7 +100,7 @@ def run(ctx):
         filt = None
         for n in ast.walk(fi.node):
             if isinstance(n, ast.Assign) and U(n.targets[0]) == "array_mask" and U(n.value) != "None":
-                got = (_mask_polarity(n.value), U(n.value))
+                got = (wiring.mask_polarity(n.value), U(n.value))
             if isinstance(n, ast.Assign) and isinstance(n.value, (ast.Call, ast.Attribute)) and "dropna()" in U(n.value):
                 filt = U(n.value)
         ok = got is not None and got[0] == ("KEEP", want_axis) and filt is not None
